@@ -143,9 +143,9 @@ int main (int argc, char **argv)
 	vh_init (argc, argv, "c05_rw_contract", "C05") ;
 	vh_enum_formats () ;
 	for (f = 0 ; f < vh_nfmts ; f++)
-	{	int chs [8], nch, format = vh_fmts [f].format ;
+	{	int chs [12], nch, format = vh_fmts [f].format ;
 		if (vh_fmts [f].major == SF_FORMAT_SD2) continue ;
-		nch = vh_channels_for (format, chs, 8, vh_thorough) ;
+		nch = vh_channels_for (format, chs, 12, vh_thorough) ;
 		for (c = 0 ; c < nch ; c++) for (t = 0 ; t < T_N ; t++) for (v = 0 ; v < 2 ; v++)
 		{	if (chs [c] > 17 && (t & 1)) continue ;
 			if (vh_case ("%s ch=%d %s %s reads", vh_fname (format), chs [c], vh_tname [t], v ? "frames" : "items"))
